@@ -261,6 +261,25 @@ def C02(run):
         grammar(run, fam)
 
 
+def C11(run):
+    run.rule = ('family poetic: every sequence of 1-2 (thorough: 3) items over 17 poetic-literal items (word lengths 1, 2, 6, 9, 10, 11, 20, '
+                'inner apostrophe, non-ASCII letters, keywords and literal words used as words, numerals, \'s / \'re / -word suffixes, periods), '
+                'long integer and fraction parts (15-22 words), in assignments and after `rock .. like`, each under every one-choice spelling '
+                'variation; poetic strings with blanks, punctuation, closed quotes and parentheses. The parsed literal must have exactly the '
+                'elements, its value must be the numeral that Poetic.tla\'s digits spell (exact below 2^53, 4 ulp otherwise) and the interpreter '
+                'must assign it. Expression admission (literal word / negative number first) is covered by the stmt family of C02.')
+    grammar(run, 'poetic', family='poetic')
+
+
+def C13(run):
+    run.rule = ('Faults.tla: a catalogue of 83 one-line syntax faults (missing operand, missing keyword, two statements on a line, a line that '
+                'cannot start a statement, unterminated string) x 11 contexts (first / last line with and without final newline, after '
+                'multi-line strings and comments, inside loop / else / after a function, after blank lines) x 2 letter cases; the parser '
+                'must reject the text and name the line of the fault (1 + line breaks before it)')
+    run.assumptions += ['the catalogue is fixed (hand-written, context-independent by construction); acceptance is decided by the real parser only']
+    grammar(run, 'fault', family='fault')
+
+
 PROPS = {
     'C01': (C01, 'model_checking'),
     'C02': (C02, 'model_checking'),
@@ -277,6 +296,8 @@ PROPS = {
     'C17': (C17, 'model_checking'),
     'C18': (C18, 'model_checking'),
     'C19': (C19, 'model_checking'),
+    'C11': (C11, 'model_checking'),
     'C12': (C12, 'model_checking'),
+    'C13': (C13, 'fault_enumeration'),
     'C14': (C14, 'model_checking'),
 }
